@@ -82,6 +82,9 @@ class Jet(Obj):
     def ptS(self, k=2):
         return self.pt * 3 + k * 7
 
+    def Trs(self, w=1):
+        return self.tr
+
 
 class Ev(Obj):
     def __init__(self, n, a, b, jets, trks):
@@ -180,6 +183,8 @@ def norm(v):
         return v._n
     if isinstance(v, dict):
         return {"__d": {k: norm(x) for k, x in v.items()}}
+    if isinstance(v, tuple) and hasattr(v, "_fields"):
+        return {"__d": {k: norm(x) for k, x in zip(v._fields, v)}}
     if isinstance(v, tuple):
         return tuple(norm(x) for x in v)
     if isinstance(v, (list, Seq)) or hasattr(v, "gi_frame"):
